@@ -526,13 +526,15 @@ pub struct GenOpts {
     pub avoid_never_value: bool,
     /// `for` binders never shadow (N4: the binding leaks into the enclosing scope)
     pub avoid_for_shadow: bool,
+    /// more `?` / `!` and more option/result functions (C23 stream)
+    pub try_boost: bool,
     /// allow `task`-free nesting stress (functions/lambdas/loops) — used by the C03 stream
     pub nesting: bool,
 }
 
 impl Default for GenOpts {
     fn default() -> Self {
-        GenOpts { tier: 0, stmts: 8, budget: 60, depth_safe: true, deep_capture: false, big_ints: 3, avoid_scrutinee_bugs: true, avoid_void_assign: true, avoid_for_shadow: true, avoid_captured_target: true, avoid_never_value: true, nesting: false }
+        GenOpts { tier: 0, stmts: 8, budget: 60, depth_safe: true, deep_capture: false, big_ints: 3, avoid_scrutinee_bugs: true, avoid_void_assign: true, avoid_for_shadow: true, avoid_captured_target: true, avoid_never_value: true, try_boost: false, nesting: false }
     }
 }
 
@@ -811,7 +813,7 @@ impl<'a> Gen<'a> {
                     return e;
                 }
             }
-            if r < 45 && self.tier() >= 2 {
+            if (r < 45 || (self.o.try_boost && r < 75)) && self.tier() >= 2 {
                 if let Some(e) = self.try_unwrap_expr(ty, d) {
                     return e;
                 }
@@ -1357,7 +1359,7 @@ impl<'a> Gen<'a> {
             // unwrap: mostly on values that are present
             let t = if *ty == Ty::Int && self.rng.chance(1, 3) { Ty::Res(Box::new(Ty::Int)) } else { Ty::Opt(Box::new(ty.clone())) };
             self.hit("unwrap");
-            let inner = if self.rng.chance(3, 4) {
+            let inner = if self.rng.chance(if self.o.try_boost { 15 } else { 3 }, if self.o.try_boost { 16 } else { 4 }) {
                 match &t {
                     Ty::Opt(p) => Expr::Variant("option".into(), "some".into(), vec![self.expr(p, d1)]),
                     _ => Expr::Call("ok_int".into(), vec![self.expr(&Ty::Int, d1)]),
@@ -1709,7 +1711,7 @@ impl<'a> Gen<'a> {
             }
             params.push((self.fresh("a"), t));
         }
-        let ret = match self.rng.below(12) {
+        let ret = match if self.o.try_boost { 6 + self.rng.below(5) } else { self.rng.below(12) } {
             0..=4 => self.scalar(),
             5 => Ty::Unit,
             6..=8 => Ty::Opt(Box::new(if self.rng.chance(3, 4) { Ty::Int } else { Ty::Str })),
@@ -2167,5 +2169,107 @@ pub mod run {
         let mut v: Vec<String> = text.lines().map(|l| l.to_string()).collect();
         v.resize(reqs.len(), "model-died".into());
         v
+    }
+
+    pub const BUDGET_SETS: [&[u32]; 4] = [&[1000], &[1], &[2, 3, 7], &[100]];
+    pub const MAX_STEPS: u64 = 3_000_000;
+
+    /// run under every budget set; the first answer and the list of all answers (crash texts without
+    /// their traceback, whose line can differ with the slicing)
+    pub fn real_all_budgets(src: &str, final_ty: &Option<Ty>) -> (Real, Vec<String>) {
+        let mut answers = vec![];
+        let mut first: Option<Real> = None;
+        for b in BUDGET_SETS {
+            let mut r = run_real(src, final_ty, b, MAX_STEPS);
+            if !r.accepted || r.answer.starts_with("crash compile") {
+                return (r, vec![]);
+            }
+            if let Some(i) = r.answer.find("[traceback]") {
+                r.answer.truncate(i);
+            }
+            answers.push(r.answer.clone());
+            if first.is_none() {
+                first = Some(r);
+            }
+        }
+        (first.unwrap(), answers)
+    }
+
+    /// is `p` still a failing program (accepted, and the implementation differs from the model)?
+    pub fn still_fails(p: &Program) -> Option<(String, String)> {
+        let src = program_src(p);
+        let r = run_real(&src, &p.final_ty, &[1000], MAX_STEPS);
+        if !r.accepted {
+            return None;
+        }
+        let m = model_batch(&[sem_request(p, "shrink")]);
+        if m[0].starts_with("stuck") || m[0] == "bad-op" || m[0] == "timeout" || m[0] == "model-died" {
+            return None;
+        }
+        if r.answer != m[0] { Some((r.answer, m[0].clone())) } else { None }
+    }
+
+    pub fn shrink(p: &Program, mut limit: usize) -> Program {
+        let mut cur = p.clone();
+        'outer: loop {
+            for c in shrink_candidates(&cur) {
+                if limit == 0 {
+                    break 'outer;
+                }
+                limit -= 1;
+                if still_fails(&c).is_some() {
+                    cur = c;
+                    continue 'outer;
+                }
+            }
+            break;
+        }
+        cur
+    }
+
+    /// Shapes that hit defects being fixed in /repo (D16, D36–D41, N6) stay out of the main stream only
+    /// until the implementation treats the witness as the reference says; the outcome of each probe is
+    /// counted under `shape:*`.
+    pub fn probe_shapes(ctx: &mut vh::Ctx) -> GenOpts {
+        let fixed = |src: &str, expect: &str| {
+            let r = vh::run_program(src);
+            r.outcome == Outcome::Done && r.out == expect
+        };
+        let d16 = fixed("let k = 10\nlet f = (a: int) -> {\n  let g = (b: int) -> a + b + k\n  g(1)\n}\nprintln(f(5))\n", "16\n");
+        let d36 = fixed("let r = match { let t = 1\n t } {\n 1 -> 10\n _ -> 20\n}\nprintln(r)\n", "10\n")
+            && fixed("let k = 1\nlet f = (a: int) -> match k {\n 1 -> a\n _ -> 0\n}\nprintln(f(5))\n", "5\n");
+        let d38 = fixed("var u = nil\nu = println(\"x\")\nprintln(\"y\")\n", "x\ny\n");
+        let d39 = fixed("let a = 5\nfor a in 3 { }\nprintln(a)\n", "5\n");
+        let d41 = fixed("let arr = [1]\nlet f = (a: int) -> {\n arr[0] = a\n 0\n}\nf(5)\nprintln(arr)\n", "[ 5 ]\n");
+        let n6 = fixed("fn g(n: int) -> int {\n  let u = if false { return 0 } else { }\n  1\n}\nprintln(g(0))\n", "1\n");
+        let onoff = |b: bool, what: &str| if b { "on".to_string() } else { format!("off({what} not fixed)") };
+        ctx.count(&format!("shape:deep-capture:{}", onoff(d16, "D16")));
+        ctx.count(&format!("shape:let/capture-in-match-scrutinee:{}", onoff(d36, "D36/D37")));
+        ctx.count(&format!("shape:void-assignment:{}", onoff(d38, "D38")));
+        ctx.count(&format!("shape:for-binder-shadowing:{}", onoff(d39, "D39")));
+        ctx.count(&format!("shape:captured-assignment-target:{}", onoff(d41, "D41")));
+        ctx.count(&format!("shape:never-typed-if-as-value:{}", onoff(n6, "N6")));
+        GenOpts {
+            deep_capture: d16,
+            avoid_scrutinee_bugs: !d36,
+            avoid_void_assign: !d38,
+            avoid_for_shadow: !d39,
+            avoid_captured_target: !d41,
+            avoid_never_value: !n6,
+            ..Default::default()
+        }
+    }
+
+    /// the unoptimised assembly (Display form, element 0 of the optimizer trace) of a program
+    pub fn real_assembly(src: &str) -> Result<Vec<String>, String> {
+        abra_core::verif_asm::start_optimize_trace();
+        let r = catch_unwind(AssertUnwindSafe(|| abra_core::compile_bytecode("main.abra", provider(src, &[]))));
+        let tr = abra_core::verif_asm::take_optimize_trace_display();
+        match r {
+            Ok(Ok(_)) => {}
+            Ok(Err(_)) => return Err("rejected".into()),
+            Err(_) => return Err("crash".into()),
+        }
+        tr.into_iter().next().ok_or_else(|| "no-trace".to_string())
     }
 }
